@@ -32,7 +32,9 @@ RULE = ("objects of every kind (network, grid, graph, system, script, trajectory
         "documented-alias table; [omitted keys take the documented defaults] default + minimal dictionaries; [multi-file layouts, "
         "external array files, relative paths resolved against the enclosing file] multifile, multifile-inherit and every file "
         "load, all run FROM A WORKING DIRECTORY HOLDING DECOY FILES with the same relative names and different content; "
-        "[direct dictionary route: the object and the dictionary share nothing mutable] coupling: the template dictionary is "
+        "[multi-file layouts whose parts inherit units] shared-parts: one network / space file without units of its own "
+        "referenced by two system files declared in different units, loaded alternately in one process, each compared with its own "
+        "inline reading; [direct dictionary route: the object and the dictionary share nothing mutable] coupling: the template dictionary is "
         "edited in place at every nesting level after *_from_dict (the object must not change), two objects are built from one "
         "dictionary and the first is edited in depth (the second must not change), the dictionary returned by *_to_dict is edited in "
         "place (effect on the source object OBSERVED and counted only: outside the statement); [units inheritance: \"default\" / \"inherit\" strings at every nesting level under non-default parents, every alias of "
@@ -1253,6 +1255,60 @@ def run_mode(kind, mode, x, ref, spec, tmp, aliases, rng, case):
             return fail("multifile:%s:%s" % (kind, field_of(df[0])), "a %s dictionary with inherited units loaded from several files differs from the same dictionary inline at %s" % (kind, df[0]),
                         impl=df[2], expected=df[1], extra={"bits": bits})
         return True, {}
+    if mode == "shared-parts":
+        # ONE set of part files (network / space without their own units, bare numbers) referenced by TWO system files declared
+        # in different units, all loaded in one process: each system must be its own inline reading (inherited units, SI values)
+        m = S()
+        to_d, from_d, _, load = conv("system")
+        parents = case.get("parents")
+        if parents is None:
+            a = rand_sys(rng)
+            b = rand_sys(rng)
+            while tuple(b) == tuple(a):
+                b = rand_sys(rng)
+            parents = [list(a), list(b)]
+            case["parents"] = parents
+        d = jsonable_dict(to_d(x))
+        for (dk, dd, path) in sub_dicts("system", d):
+            if dk in ("species", "reaction", "network", "grid", "graph", "node", "edge"):
+                dd.pop("units", None)
+                bare_numbers(dk, dd)
+        net, sp = d["network"], d["space"]
+        os.makedirs(os.path.join(tmp, "parts"), exist_ok=True)
+        for name, part in (("network.json", net), ("space.json", sp)):
+            with open(os.path.join(tmp, "parts", name), "w", encoding="utf-8") as f:
+                json.dump(part, f)
+        expected, files = [], []
+        for i, us in enumerate(parents):
+            ud = {"space": us[0], "time": us[1], "quantity": us[2]}
+            exp, err = guarded(lambda: VIEW["system"](from_d({"units": ud, "network": copy.deepcopy(net), "space": copy.deepcopy(sp)})))
+            if err is not None:
+                return True, {}
+            expected.append(exp)
+            fp = os.path.join(tmp, "system_%d.json" % i)
+            with open(fp, "w", encoding="utf-8") as f:
+                json.dump({"units": ud, "network": "parts/network.json", "space": "parts/space.json"}, f)
+            files.append(fp)
+        for order in ((0, 1), (1, 0), (0, 1)):
+            for i in order:
+                got, err = guarded(lambda: VIEW["system"](load(files[i])))
+                if err is not None:
+                    return fail("shared-parts:system:raises", "loading system_%d.json (units %s) sharing part files with another system raises %s" % (i, parents[i], err),
+                                impl=err, extra={"parents": parents})
+                df = diff(expected[i], got)
+                if df:
+                    return fail("shared-parts:system:%s" % short_field(df[0]),
+                                "two system files declared in %s and %s reference the same parts/network.json and parts/space.json (no units of their own); "
+                                "loaded in one process, the system in %s differs from its own inline reading at %s" % (parents[0], parents[1], parents[i], df[0]),
+                                impl=df[2], expected=df[1], extra={"parents": parents})
+        # and the part loader itself under two parents
+        for us in parents + parents[:1]:
+            n1, e1 = guarded(lambda: view_network(m["rn"].load_rdnetwork(os.path.join(tmp, "parts", "network.json"), mk_sys(us))))
+            n2, e2 = guarded(lambda: view_network(m["rn"].rdnetwork_from_dict(copy.deepcopy(net), mk_sys(us))))
+            if (e1 is None) != (e2 is None) or (e1 is None and diff(n2, n1)):
+                return fail("shared-parts:load_rdnetwork", "load_rdnetwork(parts/network.json, parent %s) differs from rdnetwork_from_dict of the same content under that parent "
+                            "(after the same file was loaded under another parent)" % us, impl=e1 or str(diff(n2, n1))[:200], extra={"parents": parents})
+        return True, {}
     if mode == "coupling":
         return check_coupling(kind, spec, ref)
     if mode == "units-strings":
@@ -1646,7 +1702,7 @@ def check_zero_case(sides, text):
 MODES = {"network": ["direct", "json", "file-abs", "file-rel", "reserialise", "alias", "default", "units-strings", "coupling"],
          "grid": ["direct", "json", "file-abs", "file-rel", "reserialise", "alias", "default", "coupling"],
          "graph": ["direct", "json", "file-abs", "file-rel", "reserialise", "alias", "units-strings", "coupling"],
-         "system": ["direct", "json", "file-abs", "file-rel", "reserialise", "alias", "default", "multifile", "multifile-inherit", "units-strings", "coupling"],
+         "system": ["direct", "json", "file-abs", "file-rel", "reserialise", "alias", "default", "multifile", "multifile-inherit", "shared-parts", "units-strings", "coupling"],
          "script": ["direct", "json", "file-abs", "file-rel", "reserialise", "alias", "default", "multifile", "multifile-inherit", "units-strings", "coupling"],
          "trajectory": ["file-abs", "file-rel", "file-inline"]}
 
